@@ -1088,7 +1088,7 @@ def tx_exit_cond(e, item):
     fail(item, f"condition outside the translated fragment: {ast.unparse(e)}")
 
 
-def tx_exit_decision(repo, fn_name, coq_name):
+def tx_exit_decision(repo, fn_name, coq_name, with_folders=False):
     """the tail of a verifying command: exception = test_for_missing_files(...); if C: exception = errors.X() ...; if exception: raise exception"""
     item = fn_name + ": exit decision"
     mod = parse(repo, "ascmhl/commands.py")
@@ -1102,9 +1102,20 @@ def tx_exit_decision(repo, fn_name, coq_name):
     if len(starts) != 1 or ast.unparse(body[starts[0]].value) != "test_for_missing_files(not_found_paths, root_path, ignore_spec)":
         fail(item, "expected one top-level `exception = test_for_missing_files(not_found_paths, root_path, ignore_spec)`")
     tail = body[starts[0] + 1:]
-    if not tail or ast.unparse(tail[-1]) != "if exception:\n    raise exception":
-        fail(item, "the function does not end with `if exception: raise exception`")
+    ends = [k for k, st in enumerate(tail) if ast.unparse(st) == "if exception:\n    raise exception"]
+    if len(ends) != 1:
+        fail(item, "expected one `if exception: raise exception` after the decision")
+    # what may follow it: `if len(missing_asc_mhl_folder) > 0: raise errors.X(...)` (create: a nested history folder is gone)
+    after, tail = tail[ends[0] + 1:], tail[:ends[0] + 1]
     codes = dict(EXC_CLASSES)
+    final = "0%Z"
+    for st in reversed(after):
+        ok = (isinstance(st, ast.If) and not st.orelse and ast.unparse(st.test) == "len(missing_asc_mhl_folder) > 0" and len(st.body) == 1
+              and isinstance(st.body[0], ast.Raise) and isinstance(st.body[0].exc, ast.Call) and ast.unparse(st.body[0].exc.func).startswith("errors.")
+              and ast.unparse(st.body[0].exc.func)[7:] in codes)
+        if not ok or not with_folders:
+            fail(item, f"statement after the decision outside the translated fragment: {ast.unparse(st)}")
+        final = f"(if missing_asc_mhl_folder then {codes[ast.unparse(st.body[0].exc.func)[7:]]} else {final})"
     lets = ["let exception := if missing then Some exit_completeness else None in"]
     for st in tail[:-1]:
         ok = isinstance(st, ast.If) and not st.orelse and len(st.body) == 1 and isinstance(st.body[0], ast.Assign) and ast.unparse(st.body[0].targets[0]) == "exception"
@@ -1115,8 +1126,9 @@ def tx_exit_decision(repo, fn_name, coq_name):
             fail(item, f"statement outside the translated fragment: {ast.unparse(st)}")
         lets.append(f"let exception := if {tx_exit_cond(st.test, item)} then Some {codes[ast.unparse(v.func)[7:]]} else exception in")
     return (f"(* commands.py:{fn_name} -- the exit decision (missing: test_for_missing_files returned an exception) *)\n"
-            f"Definition {coq_name} (missing single_file_given found_single_file : bool) (num_new_files num_failed_verifications : nat) : Z :=\n  "
-            + "\n  ".join(lets) + "\n  match exception with Some code => code | None => 0%Z end.\n")
+            f"Definition {coq_name} (missing single_file_given found_single_file : bool) (num_new_files num_failed_verifications : nat)"
+            + (" (missing_asc_mhl_folder : bool)" if with_folders else "") + " : Z :=\n  "
+            + "\n  ".join(lets) + f"\n  match exception with Some code => code | None => {final} end.\n")
 
 
 def generate_fns(repo):
@@ -1142,6 +1154,7 @@ def generate_fns(repo):
     add(lambda: tx_latest_number(hist_fn("latest_generation_number"), "latest_generation_number"))
     add(lambda: tx_exit_decision(repo, "verify_entire_folder", "src_verify_exit"))
     add(lambda: tx_exit_decision(repo, "diff_entire_folder_against_full_history_subcommand", "src_diff_exit"))
+    add(lambda: tx_exit_decision(repo, "create_for_folder_subcommand", "src_create_exit", with_folders=True))
     return "\n".join(parts), errors
 
 
@@ -1197,7 +1210,7 @@ def main(argv):
             with open(path + ".tmp", "w", encoding="utf-8") as fh:
                 fh.write(content)
             os.replace(path + ".tmp", path)
-    print(json.dumps({"ok": True, "changed": changed, "items": len(summary) + 7 - len(fn_errors), "shape_warnings": WARNINGS,
+    print(json.dumps({"ok": True, "changed": changed, "items": len(summary) + 8 - len(fn_errors), "shape_warnings": WARNINGS,
                       **({"function_translation_failed": fn_errors} if fn_errors else {})}))
     return 0
 
